@@ -83,10 +83,19 @@ class EvalModel:
         return self._cw
 
     def ctx_writes(self, body):
+        """context write sites of an evaluator body: calls into the context-writing API, or a direct
+        HashMap mutator on the context map (argument positions are the same: map/ctx, name, value)"""
         cw = self.ctx_writers()
         if body.id in cw:
             return []
-        return [c for c in body.live_calls if c.ruid in cw]
+        out = [c for c in body.live_calls if c.ruid in cw]
+        if body.id in self._cw_direct:
+            for c in body.live_calls:
+                if (c.callee or '').startswith('std::collections::HashMap::<K, V, S, A>::') and c.callee.split('::')[-1] in (
+                        'insert', 'remove', 'clear', 'entry', 'retain', 'extend', 'get_mut', 'drain', 'try_insert', 'remove_entry'):
+                    if 'context::ContextValue' in ' '.join(c.term['arg_tys']) or 'context::ContextValue' in c.term['dest']['ty']:
+                        out.append(c)
+        return out
 
     # --- provenance
     def prov_of_operand(self, body, op, depth=0):
